@@ -308,6 +308,7 @@ def _main_shard(sh: Dict[str, Any]) -> Dict[str, Any]:
     from vlib.bc import dyn, stubs, ai312
 
     progs_ = sh["programs"]
+    stubs.install_guard()
     model = stubs.InspectModel()
     _lowlevel._check_trickery_available()          # real self-test on real frames first
     saved = _lowlevel.inspect_frame
